@@ -8,11 +8,12 @@ for k, tiers in ((3, ("quick", "thorough")), (5, ("thorough",))):
         name="C08.a append-only tree, %d appends (restart before any): for every recorded root j and position i<=j, GetLeaf = written leaf and GetProof verifies" % k,
         harness=T + "ZZVerif_C01_AppendBMC", params={"K": k}, tiers=tiers, reach=["end"], time_limit_s=3000,
         bounds="%d leaves (non-zero values), all restart patterns, all (j, i<=j)" % k))
-for k, tiers in ((2, ("quick", "thorough")), (3, ("thorough",))):
+for k, ab, tiers in ((2, 0, ("quick", "thorough")), (2, 1, ("quick", "thorough")), (2, 2, ("thorough",)), (3, 0, ("thorough",)), (3, 1, ("thorough",))):
     OBLIGATIONS.append(dict(
-        name="C08.b updatable tree, %d upserts at positions 0..3 (restart before any): GetLeaf = value last written as of each root; proofs verify (also for unwritten positions)" % k,
-        harness=T + "ZZVerif_C08_UpdatableBMC", params={"K": k}, tiers=tiers, reach=["written"], time_limit_s=3000,
-        bounds="%d upserts, positions 0..3, values non-zero and fresh (never written before), all (root j, position i)" % k))
+        name="C08.b updatable tree, %d upserts at positions 0..3 (restart before any%s): GetLeaf = value last written as of each root; proofs verify (also for unwritten positions)" % (
+            k, "; the last one possibly preceded by a rolled-back transaction that wrote another value" if ab else ""),
+        harness=T + "ZZVerif_C08_UpdatableBMC", params={"K": k, "ABORT": ab}, tiers=tiers, reach=["written", "aborted"] if ab else ["written"], time_limit_s=3000,
+        bounds="%d upserts, positions 0..3, values non-zero and fresh (never written before), all (root j, position i)%s" % (k, {0: "", 1: "; rolled-back write at the next position (mod 4) with any value", 2: "; rolled-back write at any position with any value"}[ab])))
 OBLIGATIONS.append(dict(
     name="C08.d storage unavailable (database handle closed) after two appends: proof, leaf and root queries report an error instead of a proof that does not lead to the root",
     harness=T + "ZZVerif_C08_StorageError", reach=["end"], time_limit_s=1500, bounds="two leaves with arbitrary non-zero values"))
